@@ -85,7 +85,36 @@ def mutate(n):
             n.coord.file = "mutated"
 
 
+def abort_midway(ast):
+    """repr(), pickling and deep-copying of the tree, each started with so few
+    stack frames left that it is cut short by a RecursionError"""
+    import sys
+
+    def shallow(fn):
+        depth = len(__import__("inspect").stack(0))
+        old = sys.getrecursionlimit()
+        sys.setrecursionlimit(depth + 14)
+        try:
+            fn()
+        except RecursionError:
+            return True
+        except Exception:  # noqa: BLE001
+            return False
+        finally:
+            sys.setrecursionlimit(old)
+        return False
+
+    n = 0
+    n += shallow(lambda: repr(ast))
+    n += shallow(lambda: pickle.dumps(ast, protocol=2))
+    n += shallow(lambda: copy.deepcopy(ast))
+    return n
+
+
 def check_ast(ast, src, case):
+    if len(src) % 5 == 0:
+        # whatever an interrupted attempt leaves behind must not show afterwards
+        abort_midway(ast)
     ns = {k: getattr(c_ast, k) for k in dir(c_ast)}
     d0c = dump(ast, True)
     d0 = dump(ast)
